@@ -472,3 +472,41 @@ func (p *Program) InterDominates(root *ssa.Function, a, b ssa.Instruction, withi
 	}
 	return true
 }
+
+// MayFollow reports whether b can execute after a in some run of root, where a
+// and b lie in root or in functions reachable from it (within).  Conservative:
+// when both are reached through the same call the question is decided inside
+// the callee; sites in different closures of root are assumed to follow each other.
+func (p *Program) MayFollow(root *ssa.Function, a, b ssa.Instruction, within map[*ssa.Function]bool) bool {
+	var rec func(root *ssa.Function, depth int) bool
+	rec = func(root *ssa.Function, depth int) bool {
+		if a.Parent() == b.Parent() {
+			return InstrReaches(a, b)
+		}
+		sa, sb := p.ExecSites(root, a, within), p.ExecSites(root, b, within)
+		for _, x := range sa {
+			for _, y := range sb {
+				if x == y {
+					var callee *ssa.Function
+					if ci, ok := x.(ssa.CallInstruction); ok {
+						callee = ci.Common().StaticCallee()
+					} else if mc, ok := x.(*ssa.MakeClosure); ok {
+						callee, _ = mc.Fn.(*ssa.Function)
+					}
+					if callee != nil && callee != root && depth < 6 {
+						if rec(callee, depth+1) {
+							return true
+						}
+						continue
+					}
+					return true
+				}
+				if x.Parent() != y.Parent() || InstrReaches(x, y) {
+					return true
+				}
+			}
+		}
+		return false
+	}
+	return rec(root, 0)
+}
